@@ -440,22 +440,59 @@ func c05CheckBundle(c *rt.C, b *jBundle, id, class string) {
 // decorate adds descriptions and escapes to a bundle (C05 quantifies over
 // "descriptions and every annotation present").
 func decorate(b *jBundle) {
-	descs := []string{"A plain description", "With \"quotes\" and a \\ backslash", "Two lines\nof text", "Paragraph one\n\nParagraph two", "Unicode: é 日本語", "Slashes // and /* stars */", "Trailing space "}
+	descs := []string{"A plain description", "With \"quotes\" and a \\ backslash", "Two lines\nof text", "Paragraph one\n\nParagraph two", "Unicode: é 日本語", "Slashes // and /* stars */", "Trailing space ",
+		"100% of %d items, %s and %% signs", "Ends with a percent %"}
 	i := 0
 	next := func() string { i++; return descs[i%len(descs)] }
+	var inDecl func(d *jDecl, top bool)
+	inType := func(t *jT) {
+		for t != nil {
+			if t.Inline != nil {
+				inDecl(t.Inline, false)
+			}
+			t = t.Item
+		}
+	}
+	inDecl = func(d *jDecl, top bool) {
+		if top {
+			// (the description written inside an inline body belongs to the property that holds it)
+			d.Desc = next()
+		}
+		for _, fl := range d.Fields {
+			fl.Desc = next()
+			fl.DescLine = false
+			inType(fl.T)
+		}
+		if d.Kind == kEnum {
+			d.OptDesc = map[string]string{}
+			for _, o := range d.Options {
+				if o == "UNSPECIFIED" {
+					continue
+				}
+				d.OptDesc[o] = next()
+			}
+		}
+	}
+	inFields := func(fs []*jF) {
+		for _, fl := range fs {
+			fl.Desc = next()
+			fl.DescLine = false
+			inType(fl.T)
+		}
+	}
 	for _, f := range b.Files {
 		for _, e := range f.Elems {
-			if e.Decl != nil {
-				e.Decl.Desc = next()
-				for _, fl := range e.Decl.Fields {
-					fl.Desc = next()
-					fl.DescLine = false
+			switch {
+			case e.Decl != nil:
+				inDecl(e.Decl, true)
+			case e.Service != nil:
+				for _, m := range e.Service.Methods {
+					inFields(m.Req)
+					inFields(m.Res)
 				}
-				if e.Decl.Kind == kEnum {
-					e.Decl.OptDesc = map[string]string{}
-					for _, o := range e.Decl.Options {
-						e.Decl.OptDesc[o] = next()
-					}
+			case e.Topic != nil:
+				for _, m := range e.Topic.Messages {
+					inFields(m.Fields)
 				}
 			}
 		}
